@@ -401,6 +401,7 @@ func writersWith(f *ssa.Function, mask origin, ret func(g *ssa.Function) origin)
 //     (an address into a slice of a by-value argument still points into the caller's backing array);
 //   - append(x[:0], ...) (or append(x[:k], ...)) where x is of param origin: the elements are written
 //     into the caller's backing array.
+//
 // Returns one description per site.
 func apiArgWrites(root *ssa.Function) []string {
 	fam := family(root)
